@@ -34,6 +34,16 @@ pub fn grapheme_firsts(s: &str) -> Vec<char> {
         .collect()
 }
 
+/// A multi code point cluster that contains a character of the pattern syntax (whitespace, backslash, a marker): the
+/// crate keeps one character per cluster, so whether the syntax character "is there" depends on whether clusters are
+/// formed before or after unescaping - the property is silent about that, such inputs are not judged.
+pub fn syntax_inside_cluster(s: &str) -> bool {
+    use unicode_segmentation::UnicodeSegmentation;
+    s.graphemes(true).any(|g| {
+        g != "\r\n" && g.chars().count() > 1 && g.chars().any(|c| c.is_whitespace() || matches!(c, '\\' | '!' | '^' | '\'' | '$'))
+    })
+}
+
 pub fn ref_split(pattern: &str) -> Vec<String> {
     let mut out = Vec::new();
     let mut cur = String::new();
@@ -280,6 +290,9 @@ const NONASCII: &[char] = &[
     '\u{e9}', '\u{c9}', '\u{3042}', '\u{4e2d}', '\u{5d1}', '\u{3c2}', '\u{df}', '\u{3bb}', '\u{39b}', '\u{1e9e}',
     '\u{1c5}', '\u{a7b1}', '\u{2c7c}',
 ];
+// code points that join the preceding / following one into a single extended grapheme cluster (combining marks, variation
+// selector, zero width joiner, Hangul jamo, regional indicators, a prepend character)
+const JOINING: &[char] = &['\u{301}', '\u{308}', '\u{fe0f}', '\u{200d}', '\u{1100}', '\u{1161}', '\u{11a8}', '\u{1f1e6}', '\u{1f1fa}', '\u{600}', '\u{1f468}'];
 const UNCASED: &[char] = &['\u{3042}', '\u{4e2d}', '\u{5d1}'];
 // every White_Space code point (the splitter is documented in terms of char::is_whitespace)
 const SPACES: &[char] = &[
@@ -297,7 +310,9 @@ fn gen_pattern(rng: &mut Rng, allow_nonascii: bool) -> String {
             4 | 5 => *rng.pick(MARKERS),
             6 | 7 => *rng.pick(SPACES),
             _ => {
-                if allow_nonascii {
+                if allow_nonascii && rng.chance(1, 3) {
+                    *rng.pick(JOINING)
+                } else if allow_nonascii {
                     *rng.pick(NONASCII)
                 } else {
                     *rng.pick(LETTERS)
@@ -425,6 +440,13 @@ pub fn run(opts: &Opts, rep: &mut Report) {
             // (a) + (d) + (e): parse == reference parse; reparse on a used object == fresh parse
             0 | 1 => {
                 let p = gen_pattern(&mut rng, idx % 4 == 1);
+                if syntax_inside_cluster(&p) {
+                    rep.count("c14.syntax-inside-a-cluster-not-judged");
+                    return;
+                }
+                if p.chars().any(|c| JOINING.contains(&c)) {
+                    rep.count("c14.parsed-with-multi-code-point-clusters");
+                }
                 let real = Pattern::parse(&p, case, norm);
                 let reference = ref_parse(&p, case, norm);
                 rep.count("c14.parsed");
@@ -564,8 +586,15 @@ pub fn run(opts: &Opts, rep: &mut Report) {
                         }
                     };
                     t.push(c);
+                    if nonascii && rng.chance(1, 5) {
+                        t.push(*rng.pick(JOINING));
+                    }
                 }
                 let esc = escape_literal(&t);
+                if syntax_inside_cluster(&esc) || syntax_inside_cluster(&t.iter().collect::<String>()) {
+                    rep.count("c14.syntax-inside-a-cluster-not-judged");
+                    return;
+                }
                 let real = Pattern::parse(&esc, CaseMatching::Respect, Normalization::Never);
                 rep.count("c14.escape-roundtrip");
                 let mut h = Hasher64::new();
@@ -575,7 +604,8 @@ pub fn run(opts: &Opts, rep: &mut Report) {
                 let ok = real.atoms.len() == 1
                     && !real.atoms[0].negative
                     && real.atoms[0].kind == AtomKind::Fuzzy
-                    && needle_chars(&real.atoms[0]) == t;
+                    // "exactly that text": as the crate holds any text (one character per extended grapheme cluster, C17)
+                    && needle_chars(&real.atoms[0]) == grapheme_firsts(&t.iter().collect::<String>());
                 if !ok {
                     rep.violation(
                         "C14",
